@@ -7,7 +7,9 @@ package circfile
 
 import (
 	"bytes"
+	"crypto/sha256"
 	"encoding/binary"
+	"encoding/hex"
 	"fmt"
 	"runtime/debug"
 	"strconv"
@@ -225,7 +227,12 @@ type parseResult struct {
 // normally takes well under a millisecond.
 const hangLimit = 20 * time.Second
 
+// lastParse describes the parse in progress (for the verdict when the kernel ends the run in a
+// deadlock: a parser that started goroutines and waits for them for ever).
+var lastParse string
+
 func safeParse(format int, data []byte, rmode, k int) parseResult {
+	lastParse = fmt.Sprintf("%s input of %d bytes (sha256 %s)", []string{"mpclc", "bristol"}[format], len(data), shortSum(data))
 	ch := make(chan parseResult, 1)
 	rd := simdisk.NewReader(data, rmode, k)
 	start := time.Now()
@@ -252,10 +259,20 @@ func safeParse(format int, data []byte, rmode, k int) parseResult {
 	}()
 	select {
 	case pr := <-ch:
+		if rt.IsKill(pr.panicV) {
+			// the parser started goroutines of its own and the kernel ended the run while they
+			// were blocked (a hang, reported by Run): unwind this task as the kernel asked
+			panic(pr.panicV)
+		}
 		return pr
 	case <-time.After(hangLimit):
 		return parseResult{hung: true, elapsed: time.Since(start), eofs: rd.EOFs}
 	}
+}
+
+func shortSum(b []byte) string {
+	h := sha256.Sum256(b)
+	return hex.EncodeToString(h[:6])
 }
 
 // wellFormed checks what the property promises about an accepted circuit.
@@ -429,7 +446,7 @@ func (w *world) Run(t *rt.Tape, trace bool) *core.Result {
 		return res
 	}
 	if core.Stuck(rr) && failure == nil {
-		failure = &core.Failure{Clause: "parse-hangs", Detail: fmt.Sprintf("overlapping parses did not all return (%s): %v", rr.Outcome, rr.Blocked)}
+		failure = &core.Failure{Clause: "parse-hangs", Detail: fmt.Sprintf("%s: the parse did not return: the run ended in %s with blocked tasks %v", lastParse, rr.Outcome, rr.Blocked)}
 	}
 	res.Fail = failure
 	return res
